@@ -571,8 +571,9 @@ fn try_split_range(text: &str, glyph_map: &GlyphMap) -> Result<Node, String> {
         .filter_map(|(idx, b)| (b == b'-').then_some(idx))
     {
         let (head, tail) = text.split_at(idx);
+        // exactly one hyphen separates the two names (`a--b` is `a` to `-b`)
         if glyph_map.contains(head)
-            && glyph_map.contains(tail.trim_start_matches('-'))
+            && glyph_map.contains(&tail[1..])
             && let Some(prev_idx) = solution.replace(idx)
         {
             let (head1, tail1) = text.split_at(prev_idx);
@@ -597,7 +598,7 @@ fn try_split_range(text: &str, glyph_map: &GlyphMap) -> Result<Node, String> {
             let (head, tail) = text.split_at(idx);
             builder.token(Kind::GlyphName, head);
             builder.token(Kind::Hyphen, "-");
-            builder.token(Kind::GlyphName, tail.trim_start_matches('-'));
+            builder.token(Kind::GlyphName, &tail[1..]);
             builder.finish_node(false, None);
             builder.finish()
         })
@@ -639,6 +640,14 @@ mod tests {
 
     use super::*;
     static SAMPLE_FEA: &str = include_str!("../test-data/fonttools-tests/mini.fea");
+
+    #[test]
+    fn doubled_hyphen_is_not_dropped() {
+        let map = GlyphMap::new(["a", "b"]).unwrap();
+        assert!(try_split_range("a--b", &map).is_err());
+        let node = try_split_range("a-b", &map).unwrap();
+        assert_eq!(node.text_len(), 3);
+    }
 
     #[test]
     fn token_iter() {
